@@ -407,7 +407,7 @@ func c04RootPV(c *Ctx) {
 			if pushed {
 				continue
 			}
-			atRoot, known := rootFact(st)
+			atRoot, known := rootFact(st, fn.Params[0].Name())
 			if !(known && !atRoot) {
 				bad = "returns a score without a PV on an early exit that is not restricted to non-root nodes [" + f + "]"
 			}
